@@ -17,6 +17,7 @@ RULE = ("case = (spacetime member, fd_order, grid mode, coarse N, seed of the "
         "with non-zero exact value and a reached verdict")
 ASSUMPTIONS = c04.ASSUMPTIONS
 TIMEOUT = {"quick": 1500, "thorough": 7000}
+MEM_GB = 2.5
 MIN_NONTRIVIAL = {"quick": 100, "thorough": 300}
 
 KEYS = ['s_Gamma_udd3', 's_Riemann_uddd3', 's_Riemann_down3', 's_Ricci_down3',
